@@ -243,11 +243,12 @@ class DiscreteFactor(BaseFactor, StateNameMixin):
         for var in self.variables:
             if var not in kwargs.keys():
                 raise ValueError(f"Variable: {var} not found in arguments")
-            elif isinstance(kwargs[var], str):
-                index.append(self.name_to_no[var][kwargs[var]])
             else:
-                logger.info(f"Using {var} state as number instead of name.")
-                index.append(kwargs[var])
+                try:
+                    index.append(self.name_to_no[var][kwargs[var]])
+                except (KeyError, TypeError):
+                    logger.info(f"Using {var} state as number instead of name.")
+                    index.append(kwargs[var])
 
         self.values[tuple(index)] = value
 
